@@ -607,6 +607,21 @@ def enumerate_cases(run):
     for a in prims:
         add("CAssertEqual", False, a, a)
         add("CAssertEqual", False, a, N(42))
+    # equality looks at the VISIBLE field names first: a name that is visible on one side and only hidden
+    # on the other, with the count of visible fields made equal by another field, in both operand orders,
+    # directly and nested; an erroring field under a shared name when the name sets differ
+    va = O(("x", N(1)), ("y", N(2)))
+    shadows = [O(("x", "::", N(1)), ("y", N(2)), ("z", N(3))),
+               ("obj", [[("x", "::", False, N(1))], [("x", ":", False, N(1)), ("y", ":", False, N(2)), ("z", ":", False, N(3))]]),
+               O(("x", "::", N(1)), ("y", N(2))), O(("x", "::", N(7)), ("y", N(2)), ("z", N(3))),
+               O(("x", N(1)), ("y", N(2)), ("h", "::", S("h")))]
+    for vb in shadows:
+        for (p, q) in ((va, vb), (vb, va), (("arr", [va]), ("arr", [vb])), (O(("k", va)), O(("k", vb)))):
+            for how in ("std", "op", "ne"):
+                add("CEquals", False, p, q, how=how)
+        add("CAssertEqual", False, va, vb)
+    add("CEquals", False, O(("a", BOMB), ("b", N(1))), O(("a", N(1)), ("c", N(1))), how="op")
+    add("CEquals", False, O(("a", N(1)), ("c", N(1))), O(("a", BOMB), ("b", N(1))), how="std")
     # mergePatch: RFC 7396 appendix A
     T = lambda **kw: O(*[(k, v) for k, v in kw.items()])  # noqa
     rfc = [(T(a=S("b")), T(a=S("c"))), (T(a=S("b")), T(b=S("c"))), (T(a=S("b")), T(a=NULL)),
